@@ -136,11 +136,17 @@ func KnownAligned(from, auth string, strict bool) bool {
 // Cases
 
 type Res struct {
-	Kind byte   // 'd' DKIM, 's' SPF, 'o' other
+	Kind byte   // 'd' DKIM, 's' SPF, 'o' other (which one: Other)
 	Val  string // authres value ("" encoded as "empty")
 	Dom  string // DKIM d=
-	From string // SPF MAIL FROM domain
-	Helo string // SPF HELO
+	// DKIM i= (the signing identity, header.i of the authentication result); "" = the result carries
+	// none.  DMARC aligns on d= only: the oracle never looks at it.
+	Ident string
+	From  string // SPF MAIL FROM domain
+	// Other: which result that is neither DKIM nor SPF (OtherKinds); they all carry "pass" and name the
+	// author domain, and none of them is an input of DMARC
+	Other int
+	Helo  string // SPF HELO
 }
 
 type Zone struct {
@@ -422,14 +428,18 @@ func (c *Case) Op(kind string, fieldVals []string, out *vh.Out) string {
 	for _, r := range c.Res {
 		switch r.Kind {
 		case 'd':
-			g = append(g, "R d "+valTok(r.Val)+" "+Tok(r.Dom))
+			g = append(g, "R d "+valTok(r.Val)+" "+Tok(r.Dom)+" "+Tok(r.Ident))
 			t.dom(r.Dom)
 		case 's':
 			g = append(g, "R s "+valTok(r.Val)+" "+Tok(r.From)+" "+Tok(r.Helo))
 			t.dom(r.From)
 			t.dom(r.Helo)
 		default:
-			g = append(g, "R o")
+			if r.Other == 0 {
+				g = append(g, "R o")
+			} else {
+				g = append(g, "R o "+strconv.Itoa(r.Other))
+			}
 		}
 	}
 	g = append(g, t.rows...)
@@ -499,11 +509,21 @@ func ParseOp(op string) (kind string, c *Case, err error) {
 		case "R":
 			switch f[1] {
 			case "d":
-				c.Res = append(c.Res, Res{Kind: 'd', Val: tokVal(f[2]), Dom: Untok(f[3])})
+				// op lines written before the identity travelled in the op line: the default identity @<d>
+				d := Res{Kind: 'd', Val: tokVal(f[2]), Dom: Untok(f[3])}
+				d.Ident = "@" + d.Dom
+				if len(f) >= 5 {
+					d.Ident = Untok(f[4])
+				}
+				c.Res = append(c.Res, d)
 			case "s":
 				c.Res = append(c.Res, Res{Kind: 's', Val: tokVal(f[2]), From: Untok(f[3]), Helo: Untok(f[4])})
 			default:
-				c.Res = append(c.Res, Res{Kind: 'o'})
+				o := Res{Kind: 'o'}
+				if len(f) >= 3 {
+					o.Other, _ = strconv.Atoi(f[2])
+				}
+				c.Res = append(c.Res, o)
 			}
 		}
 	}
@@ -541,19 +561,54 @@ func (c *Case) MockZones() map[string]mockdns.Zone {
 	return m
 }
 
+// resultReasons: the free-text reason of a result (a function of the result's position and content,
+// so that an op line determines it); the words of other outcomes on purpose - the value decides.
+var resultReasons = []string{"", "", "bad signature", "pass", "temperror: key query timed out", "no key for signature", "fail (body hash did not verify)", "aligned", "best guess record for domain"}
+
 func (c *Case) AuthResults() []authres.Result {
 	var out []authres.Result
-	for _, r := range c.Res {
+	for i, r := range c.Res {
+		reason := resultReasons[(i+len(r.Dom)+len(r.Ident)+len(r.From)+2*len(r.Val))%len(resultReasons)]
 		switch r.Kind {
 		case 'd':
-			out = append(out, &authres.DKIMResult{Value: authres.ResultValue(r.Val), Domain: r.Dom, Identifier: "@" + r.Dom})
+			out = append(out, &authres.DKIMResult{Value: authres.ResultValue(r.Val), Reason: reason, Domain: r.Dom, Identifier: r.Ident})
 		case 's':
-			out = append(out, &authres.SPFResult{Value: authres.ResultValue(r.Val), From: r.From, Helo: r.Helo})
+			out = append(out, &authres.SPFResult{Value: authres.ResultValue(r.Val), Reason: reason, From: r.From, Helo: r.Helo})
 		default:
-			out = append(out, &authres.IPRevResult{Value: authres.ResultPass, IP: "192.0.2.1"})
+			out = append(out, otherResult(r.Other, c.Author))
 		}
 	}
 	return out
+}
+
+// OtherKinds: results of other methods a check may report next to SPF and DKIM.  Each says "pass"
+// for the author domain; DMARC takes its identifiers from SPF and DKIM results only.
+const OtherKinds = 9
+
+func otherResult(k int, author string) authres.Result {
+	if author == "" {
+		author = "example.com"
+	}
+	switch k {
+	case 1:
+		return &authres.DomainKeysResult{Value: authres.ResultPass, Domain: author, From: "user@" + author}
+	case 2:
+		return &authres.SenderIDResult{Value: authres.ResultPass, HeaderKey: "from", HeaderValue: "user@" + author}
+	case 3:
+		return &authres.AuthResult{Value: authres.ResultPass, Auth: "user@" + author}
+	case 4:
+		// the verdict of somebody else's DMARC evaluation
+		return &authres.DMARCResult{Value: authres.ResultPass, From: author}
+	case 5:
+		return &authres.GenericResult{Method: "dkim", Value: authres.ResultPass, Params: map[string]string{"header.d": author, "header.i": "@" + author}}
+	case 6:
+		return &authres.GenericResult{Method: "spf", Value: authres.ResultPass, Params: map[string]string{"smtp.mailfrom": author, "smtp.helo": author}}
+	case 7:
+		return &authres.GenericResult{Method: "arc", Value: authres.ResultPass, Params: map[string]string{"header.d": author}}
+	case 8:
+		return &authres.GenericResult{Method: "dkim-atps", Value: authres.ResultPass, Params: map[string]string{"header.d": author, "header.from": author}}
+	}
+	return &authres.IPRevResult{Value: authres.ResultPass, IP: "192.0.2.1"}
 }
 
 // ---------------------------------------------------------------------------------------------
@@ -818,6 +873,198 @@ func related(r *vh.Rng, from string, allowEmpty bool) string {
 		}
 		return d.Name
 	}
+}
+
+// ---------------------------------------------------------------------------------------------
+// The DKIM signing identity (i= of the signature, header.i of the authentication result).  RFC 6376
+// wants its domain to be d= or a subdomain of d=; a result handed to the verifier can carry
+// anything.  The property (RFC 7489 3.1.1) aligns on d= only, so every form below must leave
+// verdict and action untouched.
+
+// properSub: is name a proper subdomain of parent (labels compared case-insensitively)?
+func properSub(name, parent string) bool {
+	return parent != "" && len(name) > len(parent)+1 && strings.HasSuffix(asciiLower(name), "."+asciiLower(parent))
+}
+
+// subsOf: names of the fixed set that are proper subdomains of d.
+func subsOf(d string) []string {
+	var out []string
+	for _, x := range Doms {
+		if properSub(x.Name, d) {
+			out = append(out, x.Name)
+		}
+	}
+	return out
+}
+
+func upper(s string) string { return strings.ToUpper(s) }
+
+// parentOf drops the first label ("" for a single label).
+func parentOf(d string) string {
+	if i := strings.IndexByte(d, '.'); i >= 0 {
+		return d[i+1:]
+	}
+	return ""
+}
+
+var identLocals = []string{"user", "bulk", "no-reply", "first.last", "\"quoted local\"", "a+tag"}
+
+// identForm renders form k (0 <= k < IdentForms) of the signing identity for a signature with d=d
+// on a message whose author domain is from; pick(n) chooses among n alternatives.
+const IdentForms = 24
+
+func identForm(k int, d, from string, pick func(n int) int) string {
+	local := identLocals[pick(len(identLocals))]
+	// a subdomain of d=: the author domain itself when it is one (the case in which "the domain of i="
+	// and d= fall on different sides of the alignment test), else another name of the set, else made up
+	sub := func() string {
+		if properSub(from, d) && pick(3) != 0 {
+			return from
+		}
+		if subs := subsOf(d); len(subs) > 0 && pick(2) == 0 {
+			return subs[pick(len(subs))]
+		}
+		return []string{"mail.", "news.", "a.b.", "x--y.", "_domainkey."}[pick(5)] + d
+	}
+	switch k {
+	case 0:
+		return "" // no header.i
+	case 1:
+		return "@" + d // the default of RFC 6376
+	case 2:
+		return local + "@" + d
+	case 3:
+		return "@" + sub()
+	case 4:
+		return local + "@" + sub()
+	case 5:
+		return local + "@deep." + sub() // user@sub.sub.d
+	case 6:
+		return "@" + from // the author domain, whatever d= is
+	case 7:
+		return local + "@" + from
+	case 8:
+		// a different domain entirely
+		return local + "@" + []string{"evil.com", "example.net", "mail.evil.com", "evil.co.uk"}[pick(4)]
+	case 9:
+		// d= is a textual suffix of the domain, but not at a label boundary; d= as a label prefix
+		return []string{"@not" + d, "@" + d + ".evil.com", local + "@" + d + "." + d}[pick(3)]
+	case 10:
+		// the parent of d= / a sibling
+		if p := parentOf(d); p != "" {
+			return []string{"@" + p, local + "@sibling." + p}[pick(2)]
+		}
+		return "@"
+	case 11:
+		return upper(local + "@" + sub())
+	case 12:
+		return "@" + upper(d)
+	case 13:
+		return local + "@" + upper(from)
+	case 14:
+		// IDN: U-label and A-label below d=, non-ASCII local part, full-width spelling of d=
+		return []string{local + "@b\u00fccher." + d, "@xn--bcher-kva." + d, "\u00fcser@" + d, "@\uff45\uff58\uff41\uff4d\uff50\uff4c\uff45.com", local + "@\u4f8b\u3048." + from}[pick(5)]
+	case 15:
+		// malformed: no '@', no domain, several '@'
+		return []string{"user", "@", local + "@", "@@" + d, d, "@" + from + "@" + d, "@" + d + "@" + from, local + "@" + from + "@"}[pick(8)]
+	case 16:
+		// malformed: dots, spaces, brackets
+		return []string{"@." + d, "@" + d + ".", local + "@ " + d, "<" + local + "@" + d + ">", "@." + from, "@" + from + ".", "@mail.." + d, local + "@[192.0.2.1]"}[pick(8)]
+	case 17:
+		return "@" + sub() + "." // trailing dot on a subdomain
+	case 18:
+		return "@" + asciiLower(from)
+	case 19:
+		if subs := subsOf(from); len(subs) > 0 {
+			return "@" + subs[pick(len(subs))] // below the author domain
+		}
+		return "@mail." + from
+	case 20:
+		return local + "@" + asciiLower(sub())
+	case 21:
+		return "@" + Doms[pick(len(Doms)-1)].Name // any name of the set
+	case 22:
+		return strings.Repeat("l", 64) + "@" + strings.Repeat("sub.", 40) + d // long
+	default:
+		return "@" + d
+	}
+}
+
+// GenIdent draws the signing identity of a DKIM result with d=d.
+func GenIdent(r *vh.Rng, d, from string) string {
+	var k int
+	switch x := r.Intn(100); {
+	case x < 12:
+		k = 0
+	case x < 27:
+		k = 1
+	case x < 35:
+		k = 2
+	case x < 60:
+		k = 3 + r.Intn(3) // below d=
+	default:
+		k = 6 + r.Intn(IdentForms-6)
+	}
+	if d == "" {
+		// the result of a message without signature, or a result that names its signer in i= only
+		switch x := r.Intn(100); {
+		case x < 50:
+			return ""
+		case x < 75:
+			k = 6 + r.Intn(2)
+		}
+	}
+	return identForm(k, d, from, r.Intn)
+}
+
+func mix(n int) int { return int((uint32(n) * 2654435761) >> 12) }
+
+// IdentByIndex: the identity of the n-th point of the sweep (all forms in turn, deterministic).
+func IdentByIndex(n int, d, from string) string {
+	h := mix(n)
+	k := h % IdentForms
+	h /= IdentForms
+	return identForm(k, d, from, func(m int) int { h = mix(h + 1); return h % m })
+}
+
+// IdentClass classifies an identity relative to d= and the author domain (for the distribution).
+func IdentClass(ident, d, from string) string {
+	if ident == "" {
+		return "absent"
+	}
+	at := strings.LastIndexByte(ident, '@')
+	if at < 0 || at == len(ident)-1 || strings.Count(ident, "@") > 1 || strings.ContainsAny(ident, " <>[]") ||
+		strings.Contains(ident, "..") || strings.HasSuffix(ident, ".") || strings.Contains(ident, "@.") {
+		return "malformed"
+	}
+	dm := ident[at+1:]
+	for i := 0; i < len(dm); i++ {
+		if dm[i] >= 0x80 {
+			return "idn"
+		}
+	}
+	if strings.Contains(asciiLower(dm), "xn--") || strings.IndexFunc(ident[:at], func(c rune) bool { return c >= 0x80 }) >= 0 {
+		return "idn"
+	}
+	cs := ""
+	if dm != asciiLower(dm) {
+		cs = ".uppercase"
+	}
+	switch {
+	case dm == d && at == 0:
+		return "default"
+	case dm == d:
+		return "user-at-d"
+	case asciiLower(dm) == asciiLower(d):
+		return "d-other-spelling"
+	case properSub(dm, d) && asciiLower(dm) == asciiLower(from):
+		return "subdomain-of-d.author" + cs
+	case properSub(dm, d):
+		return "subdomain-of-d" + cs
+	case asciiLower(dm) == asciiLower(from):
+		return "other-domain.author" + cs
+	}
+	return "other-domain" + cs
 }
 
 var keyForms = []string{"From", "from", "FROM", "fRoM"}
@@ -1216,7 +1463,7 @@ func Random(r *vh.Rng) *Case {
 		if v == "none" && r.Chance(70) {
 			d = ""
 		}
-		c.Res = append(c.Res, Res{Kind: 'd', Val: v, Dom: d})
+		c.Res = append(c.Res, Res{Kind: 'd', Val: v, Dom: d, Ident: GenIdent(r, d, from)})
 	}
 	ns := 1
 	if r.Chance(3) {
@@ -1239,9 +1486,9 @@ func Random(r *vh.Rng) *Case {
 		pos := r.Intn(len(c.Res) + 1)
 		c.Res = append(c.Res[:pos], append([]Res{s}, c.Res[pos:]...)...)
 	}
-	if r.Chance(10) {
+	for no := 2; no > 0 && r.Chance(14); no-- {
 		pos := r.Intn(len(c.Res) + 1)
-		c.Res = append(c.Res[:pos], append([]Res{{Kind: 'o'}}, c.Res[pos:]...)...)
+		c.Res = append(c.Res[:pos], append([]Res{{Kind: 'o', Other: r.Intn(OtherKinds)}}, c.Res[pos:]...)...)
 	}
 	c.Seed = int64(r.Intn(1 << 30))
 	c.PriorQ = r.Chance(20)
@@ -1334,7 +1581,8 @@ func mk(hdr, shape, author string, zones map[string]Zone, res ...Res) *Case {
 func txt(records ...string) Zone { return Zone{Kind: "ok", TXT: records} }
 
 func Corpus() []*Case {
-	dk := func(v, d string) Res { return Res{Kind: 'd', Val: v, Dom: d} }
+	dk := func(v, d string) Res { return Res{Kind: 'd', Val: v, Dom: d, Ident: "@" + d} }
+	dki := func(v, d, i string) Res { return Res{Kind: 'd', Val: v, Dom: d, Ident: i} }
 	spf := func(v, from, helo string) Res { return Res{Kind: 's', Val: v, From: from, Helo: helo} }
 	one := func(d string) string { return "From: Some Body <user@" + d + ">\r\nSubject: x\r\n\r\n" }
 	return []*Case{
@@ -1382,13 +1630,36 @@ func Corpus() []*Case {
 		mk("From: Team: =?koi8-r?Q?=F0=D2=C9=D7=C5=D4?= <ceo@example.com>, x@evil.com;\r\nSubject: x\r\n\r\n", "m2", "",
 			map[string]Zone{"example.com": txt("v=DMARC1; p=reject"), "evil.com": txt("v=DMARC1; p=none")},
 			dk("pass", "example.com"), spf("pass", "evil.com", "mail.evil.com")),
+		// the signing identity (i=) takes no part in alignment.  Strict mode, d= is the author domain, i= lies below it: pass
+		mk(one("example.com"), "1", "example.com", map[string]Zone{"example.com": txt("v=DMARC1; p=reject; adkim=s; aspf=s")},
+			dki("pass", "example.com", "@mail.example.com"), spf("fail", "example.org", "mx.example.org")),
+		// strict mode, d= is the parent of the author domain, i= names the author domain: not aligned
+		mk(one("sub.example.com"), "1", "sub.example.com", map[string]Zone{"sub.example.com": txt("v=DMARC1; p=reject; adkim=s")},
+			dki("pass", "example.com", "bulk@sub.example.com"), spf("fail", "example.org", "mx.example.org")),
+		// relaxed mode, d= in another organizational domain than the author domain that i= names (private suffix below d=)
+		mk(one("mallory.s3.amazonaws.com"), "1", "mallory.s3.amazonaws.com", map[string]Zone{"mallory.s3.amazonaws.com": txt("v=DMARC1; p=quarantine")},
+			dki("pass", "amazonaws.com", "@mallory.s3.amazonaws.com"), spf("fail", "example.org", "mx.example.org")),
+		// i= names the author domain, d= somebody else
+		mk(one("example.com"), "1", "example.com", map[string]Zone{"example.com": txt("v=DMARC1; p=reject")},
+			dki("pass", "evil.com", "ceo@example.com"), spf("fail", "example.org", "mx.example.org")),
+		// no i= at all / a malformed one / upper case below d=: d= decides
+		mk(one("example.com"), "1", "example.com", map[string]Zone{"example.com": txt("v=DMARC1; p=reject; adkim=s")},
+			dki("pass", "example.com", ""), spf("fail", "example.org", "mx.example.org")),
+		mk(one("example.com"), "1", "example.com", map[string]Zone{"example.com": txt("v=DMARC1; p=reject; adkim=s")},
+			dki("fail", "example.com", "@"), dki("pass", "example.com", "USER@NEWS.EXAMPLE.COM"), spf("fail", "example.org", "mx.example.org")),
+		// a temporary error of a signature whose d= is aligned leaves alignment undecided, whatever its i=
+		mk(one("example.com"), "1", "example.com", map[string]Zone{"example.com": txt("v=DMARC1; p=reject; adkim=s")},
+			dki("temperror", "example.com", "@mail.example.com"), spf("fail", "example.org", "mx.example.org")),
+		// ... and one whose d= is not aligned decides nothing, even when i= names the author domain
+		mk(one("sub.example.com"), "1", "sub.example.com", map[string]Zone{"sub.example.com": txt("v=DMARC1; p=reject; adkim=s")},
+			dki("temperror", "example.com", "@sub.example.com"), spf("fail", "example.org", "mx.example.org")),
 	}
 }
 
 // TimedCorpus: pipeline runs with a timing (reply ops only).  A message failing p=reject whose
 // policy answer arrives while the second / third block's body checks run, or after all of them.
 func TimedCorpus() []*Case {
-	dk := func(v, d string) Res { return Res{Kind: 'd', Val: v, Dom: d} }
+	dk := func(v, d string) Res { return Res{Kind: 'd', Val: v, Dom: d, Ident: "@" + d} }
 	spf := func(v, from, helo string) Res { return Res{Kind: 's', Val: v, From: from, Helo: helo} }
 	one := func(d string) string { return "From: Some Body <user@" + d + ">\r\nSubject: x\r\n\r\n" }
 	var out []*Case
@@ -1515,8 +1786,8 @@ func Enumerate(stride int, offset int, f func(*Case), total ...*int) int {
 											}
 											set(org, Zone{Kind: "temp"})
 										}
-										for _, d := range ds {
-											c.Res = append(c.Res, Res{Kind: 'd', Val: d.v, Dom: d.d})
+										for di, d := range ds {
+											c.Res = append(c.Res, Res{Kind: 'd', Val: d.v, Dom: d.d, Ident: IdentByIndex(n*3+di, d.d, from)})
 										}
 										s := Res{Kind: 's', Val: sv, From: sid, Helo: "mx.example.org"}
 										if n%5 == 0 {
@@ -1527,7 +1798,7 @@ func Enumerate(stride int, offset int, f func(*Case), total ...*int) int {
 										} else {
 											c.Res = append(c.Res, s)
 										}
-										c.PriorQ = n%7 == 0
+										c.PriorQ = mix(n+2)%7 == 0
 										f(c)
 										emitted++
 									}
